@@ -299,3 +299,46 @@ def gen_lengths_profile(seed, upto=300):
         else:
             s.add("open", {"ct": body, "tag": tag, "aad": aad}, ctx="r", form=oform)
     return s
+
+
+def gen_weakhash_profile(seed, suite=(32, 1, 1), n=28):
+    """sender and receiver that differ in ONE key-schedule input, the two values being distinct strings of equal
+    length that collide under a common non-cryptographic digest (weakhash.py); the two setups are consecutive
+    calls of one process, in both orders; then a message and an export on both sides"""
+    from . import weakhash
+    s = Script(seed)
+    kem, kdf, aead = suite
+    pairs = weakhash.pairs(n, seed)
+    kr = s.add("derive_keypair", {"ikm": s.fresh(NSK[kem], "ikm")}, kem=kem)
+    k = 0
+    for field in ("info", "psk_id", "psk"):
+        for kind, (a, b) in sorted(pairs.items()):
+            for order in (0, 1):
+                k += 1
+                mode = 0 if field == "info" and k % 2 else 1
+                vals = {"info": Lit(b"common info"), "psk": Lit(b"p" * 32), "psk_id": Lit(b"common id")}
+                sv, rv = dict(vals), dict(vals)
+                sv[field], rv[field] = Lit(a), Lit(b)
+                sargs = {"pk_r": E("out", kr, "pk"), "info": sv["info"], "rng": s.fresh(NSK[kem], "rng")}
+                rargs = {"sk_r": E("out", kr, "sk"), "info": rv["info"]}
+                if mode == 1:
+                    sargs.update(psk=sv["psk"], psk_id=sv["psk_id"])
+                    rargs.update(psk=rv["psk"], psk_id=rv["psk_id"])
+                cs, cr = "s%d" % k, "r%d" % k
+                if order == 0:
+                    i_s = s.add("setup_s", sargs, ctx=cs, suite=list(suite), mode=mode)
+                    s.add("setup_r", dict(rargs, enc=E("out", i_s, "enc")), ctx=cr, suite=list(suite), mode=mode)
+                else:
+                    # the receiver's string is seen first (by a throw-away sender), then sender and receiver
+                    s.add("setup_s", dict(sargs, info=rv["info"], **({"psk": rv["psk"], "psk_id": rv["psk_id"]} if mode else {})),
+                          ctx=cs + "x", suite=list(suite), mode=mode)
+                    i_s = s.add("setup_s", sargs, ctx=cs, suite=list(suite), mode=mode)
+                    s.add("setup_r", dict(rargs, enc=E("out", i_s, "enc")), ctx=cr, suite=list(suite), mode=mode)
+                if aead != 65535:
+                    aad = Lit(b"aad")
+                    i = s.add("seal", {"pt": s.fresh(21, "pt"), "aad": aad}, ctx=cs, form="alloc")
+                    s.add("open", {"ct": E("out", i, "ct"), "aad": aad}, ctx=cr, form="alloc")
+                ectx = Lit(b"ectx")
+                s.add("export", {"exporter_ctx": ectx}, ctx=cs, len=32)
+                s.add("export", {"exporter_ctx": ectx}, ctx=cr, len=32)
+    return s
